@@ -44,6 +44,18 @@ def make_jobs(ctx: Ctx, count: int) -> list[dict]:
         modulation = kind == "rydberg" and i % 13 == 6
         local = kind == "rydberg" and not modulation and i % 8 == 3
         spec = scen.sequence_spec(rng, n, wf, phase, dmm, slm, duration, modulation=modulation, amp_scale=8.0)
+        if wf == "const" and phase in ("jump", "pi_echo"):
+            # back-to-back pulses with bit-identical amplitude and detuning and DIFFERENT phases: the only change between two
+            # consecutive steps is the phase
+            adds = [o for o in spec["ops"] if o["op"] == "add"]
+            if len(adds) == 2:
+                a0 = adds[0]["pulse"]["amp"]["v"]
+                d0 = adds[0]["pulse"]["det"]
+                dv = d0.get("v", d0.get("v0", (d0.get("values") or [0.0])[0]))
+                for o in adds:
+                    dd = o["pulse"]["amp"]["d"]
+                    o["pulse"]["amp"] = {"k": "const", "d": dd, "v": a0}
+                    o["pulse"]["det"] = {"k": "const", "d": dd, "v": dv}
         if local:
             scen.add_local_phase(rng, spec)
         if kind == "xy":
